@@ -32,7 +32,7 @@ inline bool leq(Clock const& a, Clock const& b) { for (int i = 0; i < NT; ++i) i
 inline thread_local int g_thr = -2;
 inline int g_default_thr = 1;
 inline std::recursive_mutex g_mx;
-inline void (*g_park)(std::string const&, int) = nullptr;
+inline void (*g_park)(std::string const&, int, int) = nullptr;      // (object name, logical thread, 0 load / 1 store / 2 rmw)
 #else
 inline int g_thr = -1;                       // -1: set-up (constructor stores precede both threads)
 #endif
@@ -56,18 +56,18 @@ inline char const* mo_name(std::memory_order m)
 }
 inline std::string name_of(void const* p) { auto it = g_names.find(p); return it == g_names.end() ? std::string{} : it->second; }
 #ifdef SHIM_MT
-inline std::unique_lock<std::recursive_mutex> enter(void const* p, bool is_load)
+inline std::unique_lock<std::recursive_mutex> enter(void const* p, int kind)
 {
   if (g_thr == -2) g_thr = g_default_thr;
   std::unique_lock<std::recursive_mutex> lk(g_mx);
-  if (is_load && g_thr >= 0 && g_park)
+  if (g_thr >= 0 && g_park)
   {
     std::string const nm = name_of(p);
-    if (!nm.empty()) { lk.unlock(); g_park(nm, g_thr); lk.lock(); }
+    if (!nm.empty()) { lk.unlock(); g_park(nm, g_thr, kind); lk.lock(); }
   }
   return lk;
 }
-#define SHIM_ENTER(p, is_load) auto shim_lk_ = shim::enter(p, is_load)
+#define SHIM_ENTER(p, kind) auto shim_lk_ = shim::enter(p, kind)
 // an atomic that only exists inside a call (flush_log's local flag) gets its name when it is constructed by logical thread 0
 inline char const* g_autoname = nullptr;
 inline int g_autonamed = 0;
@@ -88,7 +88,7 @@ inline void died(void const* p)
 #define SHIM_BORN(p) shim::born(p)
 #define SHIM_DIED(p) shim::died(p)
 #else
-#define SHIM_ENTER(p, is_load) (void)0
+#define SHIM_ENTER(p, kind) (void)0
 #define SHIM_BORN(p) (void)0
 #define SHIM_DIED(p) (void)0
 #endif
@@ -121,7 +121,7 @@ struct verif_atomic
   T load(std::memory_order mo = std::memory_order_seq_cst) const noexcept
   {
     auto* self = const_cast<verif_atomic*>(this);
-    SHIM_ENTER(this, true);
+    SHIM_ENTER(this, 0);
     if (shim::g_thr < 0) return h.back().val;
     int const t = shim::g_thr;
     std::string const nm = shim::name_of(this);
@@ -156,7 +156,7 @@ struct verif_atomic
   }
   void store(T v, std::memory_order mo = std::memory_order_seq_cst) noexcept
   {
-    SHIM_ENTER(this, false);
+    SHIM_ENTER(this, 1);
     if (shim::g_thr < 0) { h.back().val = v; return; }
     push(v, shim::is_rel(mo), shim::Clock{});
     std::string const nm = shim::name_of(this);
@@ -167,7 +167,7 @@ struct verif_atomic
   template <typename F>
   T rmw(F f, std::memory_order mo) noexcept
   {
-    SHIM_ENTER(this, false);
+    SHIM_ENTER(this, 2);
     if (shim::g_thr < 0) { T o = h.back().val; h.back().val = f(o); return o; }
     int const t = shim::g_thr;
     Msg const m = h.back();
